@@ -66,6 +66,7 @@ Inductive obs :=
 | O_degree (l : list Z)
 | O_defects (zero_border : bool) (l : list dy)
 | O_vnormals (w : weighting) (l : list dy3)
+| O_vnormals_c (w : weighting) (fn : list dy3) (l : list dy3)
 | O_cell_volume (l : list dy)
 | O_cell_bary (l : list dy3)
 | O_euler (x : Z)
@@ -111,6 +112,7 @@ Definition check_obs (c : case) (mf : mesh float) (mq : mesh Q) (ang : list floa
   | O_degree l => list_eqb Z.eqb (degree mf) l
   | O_defects zb l => lF (angle_defects fo zb pi_f ang mf) l
   | O_vnormals w l => lF3 (vertex_normals fo w ang mf) l
+  | O_vnormals_c w fn l => lF3 (vertex_normals_custom fo w ang mf (map dy3F fn)) l
   | O_cell_volume l => lQ (cell_volume qo mq) l
   | O_cell_bary l => lQ3 (cell_barycenter qo mq) l
   | O_euler x => euler_characteristic mf =? x
